@@ -105,3 +105,417 @@ fn c01_lpc_inverse_o1_n3() {
     std::mem::forget(residuals);
 }
 
+
+// ===========================================================================
+// C15: constructors validate their arguments
+// ===========================================================================
+
+/// a writer that accepts everything and can be repositioned
+pub struct NullSeek {
+    pub pos: u64,
+}
+
+impl std::io::Write for NullSeek {
+    fn write(&mut self, buf: &[u8]) -> std::io::Result<usize> {
+        self.pos += buf.len() as u64;
+        Ok(buf.len())
+    }
+    fn flush(&mut self) -> std::io::Result<()> {
+        Ok(())
+    }
+}
+
+impl std::io::Seek for NullSeek {
+    fn seek(&mut self, to: std::io::SeekFrom) -> std::io::Result<u64> {
+        if let std::io::SeekFrom::Start(p) = to {
+            self.pos = p;
+        }
+        Ok(self.pos)
+    }
+}
+
+/// stand-in for metadata::write_blocks (serialisation is C11/C13's subject)
+fn stub_write_blocks<B: crate::metadata::AsBlockRef>(
+    _w: impl std::io::Write,
+    _blocks: impl IntoIterator<Item = B>,
+) -> Result<(), Error> {
+    Ok(())
+}
+
+/// default options without padding and seek table, built directly (the
+/// default constructor and `no_padding` shuffle heap-allocated block lists)
+fn plain_options() -> Options {
+    Options {
+        clobber: false,
+        block_size: 4096,
+        mid_side: true,
+        max_partition_order: 5,
+        metadata: BlockList::new(Streaminfo {
+            minimum_block_size: 0,
+            maximum_block_size: 0,
+            minimum_frame_size: None,
+            maximum_frame_size: None,
+            sample_rate: 0,
+            channels: NonZero::new(1).unwrap(),
+            bits_per_sample: SignedBitCount::new::<4>(),
+            total_samples: None,
+            md5: None,
+        }),
+        seektable_interval: None,
+        max_lpc_order: NonZero::new(8),
+        window: Window::default(),
+        exhaustive_channel_correlation: true,
+    }
+}
+
+// @harness prop=C15 tier=quick expect=pass timeout=900 replay=driver
+// @units encode::FlacSampleWriter::new encode::Encoder::new encode::exact_div
+// @stubs metadata::write_blocks
+// @bound every sample rate (u32), bit depth (u32), channel count (u8) and declared total (None or any u64); no seek table, no padding (both only add blocks)
+// @oracle never panics; Ok exactly for: depth 1..=32, rate < 2^20, channels 1..=8 and a total that is absent or a non-zero whole number of PCM frames below 2^36; everything else is an error
+#[kani::proof]
+#[kani::unwind(10)]
+#[kani::stub(write_blocks, stub_write_blocks)]
+fn c15_sample_writer_new_validates() {
+    let rate: u32 = kani::any();
+    let bps: u32 = kani::any();
+    let channels: u8 = kani::any();
+    let total: Option<u64> = if kani::any() { Some(kani::any()) } else { None };
+    let base_ok = bps >= 1 && bps <= 32 && rate < (1 << 20) && channels >= 1 && channels <= 8;
+    let r = FlacSampleWriter::new(NullSeek { pos: 0 }, plain_options(), rate, bps, channels, total);
+    let total_ok = match total {
+        None => true,
+        Some(t) => channels != 0 && t % u64::from(channels) == 0 && t != 0 && t / u64::from(channels) < (1 << 36),
+    };
+    assert!(r.is_ok() == (base_ok && total_ok));
+    std::mem::forget(r);
+}
+
+// @harness prop=C15 tier=quick expect=pass timeout=900 replay=driver
+// @units encode::FlacByteWriter::new encode::Encoder::new encode::exact_div
+// @stubs metadata::write_blocks
+// @bound as c15_sample_writer_new_validates for the byte front-end (total given in bytes)
+// @oracle never panics; Ok exactly for legal depth/rate/channels and a total that is absent or a non-zero whole number of PCM frames (bytes / channels / bytes-per-sample) below 2^36
+#[kani::proof]
+#[kani::unwind(10)]
+#[kani::stub(write_blocks, stub_write_blocks)]
+fn c15_byte_writer_new_validates() {
+    let rate: u32 = kani::any();
+    let bps: u32 = kani::any();
+    let channels: u8 = kani::any();
+    let total: Option<u64> = if kani::any() { Some(kani::any()) } else { None };
+    let base_ok = bps >= 1 && bps <= 32 && rate < (1 << 20) && channels >= 1 && channels <= 8;
+    let r = FlacByteWriter::<_, crate::byteorder::LittleEndian>::new(NullSeek { pos: 0 }, plain_options(), rate, bps, channels, total);
+    if r.is_ok() {
+        assert!(base_ok);
+        if let Some(t) = total {
+            let frame = u64::from(channels) * u64::from((bps + 7) / 8);
+            assert!(t != 0 && t % frame == 0);
+        }
+    }
+    if !base_ok {
+        assert!(r.is_err());
+    }
+    std::mem::forget(r);
+}
+
+// @harness prop=C15 tier=quick expect=pass timeout=900 replay=driver
+// @units encode::FlacChannelWriter::new encode::Encoder::new
+// @stubs metadata::write_blocks
+// @bound channel count pinned in turn to 0, 1, 8, 9 (it sizes a vector); every rate, depth and declared total
+// @oracle never panics; Ok exactly for legal depth/rate/channels and a total that is absent or below 2^36
+#[kani::proof]
+#[kani::unwind(12)]
+#[kani::stub(write_blocks, stub_write_blocks)]
+fn c15_channel_writer_new_validates() {
+    const CH: [u8; 4] = [0, 1, 8, 9];
+    let mut i = 0;
+    while i < CH.len() {
+        let rate: u32 = kani::any();
+        let bps: u32 = kani::any();
+        let total: Option<u64> = if kani::any() { Some(kani::any()) } else { None };
+        let base_ok = bps >= 1 && bps <= 32 && rate < (1 << 20) && CH[i] >= 1 && CH[i] <= 8;
+        let r = FlacChannelWriter::new(NullSeek { pos: 0 }, plain_options(), rate, bps, CH[i], total);
+        let total_ok = match total {
+            None => true,
+            Some(t) => t < (1 << 36),
+        };
+        assert!(r.is_ok() == (base_ok && total_ok));
+        std::mem::forget(r);
+        i += 1;
+    }
+}
+
+// @harness prop=C15 tier=quick expect=pass timeout=600
+// @units encode::Options::block_size encode::Options::max_lpc_order encode::Options::max_partition_order encode::Options::padding
+// @bound every argument value of the four checked option setters
+// @oracle never panics; Ok exactly for block size >= 16, LPC order None or 1..=32, partition order 0..=15, padding < 2^24
+#[kani::proof]
+#[kani::unwind(6)]
+fn c15_option_setters_validate() {
+    let b: u16 = kani::any();
+    let r = plain_options().block_size(b);
+    assert!(r.is_ok() == (b >= 16));
+    std::mem::forget(r);
+    let l: Option<u8> = if kani::any() { Some(kani::any()) } else { None };
+    let r = plain_options().max_lpc_order(l);
+    assert!(r.is_ok() == match l { None => true, Some(v) => v >= 1 && v <= 32 });
+    std::mem::forget(r);
+    let p: u32 = kani::any();
+    let r = plain_options().max_partition_order(p);
+    assert!(r.is_ok() == (p <= 15));
+    std::mem::forget(r);
+    let s: u32 = kani::any();
+    let r = plain_options().padding(s);
+    assert!(r.is_ok() == (s < (1 << 24)));
+    std::mem::forget(r);
+}
+
+// ===========================================================================
+// C09: seek point bookkeeping
+// ===========================================================================
+
+// @harness prop=C09 tier=quick expect=pass timeout=900
+// @units encode::SeekTableInterval::filter encode::EncoderSeekPoint::range
+// @bound 3 consecutive frames (first sample offsets and lengths symbolic but contiguous, byte offsets ascending), interval = every n seconds (n 1..=255, any 20-bit rate) or every n frames (n 1..=3)
+// @oracle the selected points are a subsequence of the frames actually written (unchanged sample offset, byte offset and length), in ascending order, starting with the first frame
+#[kani::proof]
+#[kani::unwind(6)]
+fn c09_seektable_filter_selects_written_frames() {
+    let len: [u16; 3] = kani::any();
+    kani::assume(len[0] >= 1 && len[1] >= 1 && len[2] >= 1);
+    let b: [u32; 3] = kani::any();
+    let pts = [
+        EncoderSeekPoint { sample_offset: 0, byte_offset: Some(0), frame_samples: len[0] },
+        EncoderSeekPoint { sample_offset: u64::from(len[0]), byte_offset: Some(u64::from(b[0]) + 1), frame_samples: len[1] },
+        EncoderSeekPoint {
+            sample_offset: u64::from(len[0]) + u64::from(len[1]),
+            byte_offset: Some(u64::from(b[0]) + u64::from(b[1]) + 2),
+            frame_samples: len[2],
+        },
+    ];
+    let interval = if kani::any() {
+        let s: u8 = kani::any();
+        kani::assume(s >= 1);
+        SeekTableInterval::Seconds(NonZero::new(s).unwrap())
+    } else {
+        let f: usize = kani::any();
+        kani::assume(f >= 1 && f <= 3);
+        SeekTableInterval::Frames(NonZero::new(f).unwrap())
+    };
+    let rate: u32 = kani::any();
+    kani::assume(rate < (1 << 20));
+    let mut it = interval.filter(rate, pts.iter().cloned());
+    let mut next_src = 0usize; // selected points must come from pts[next_src..]
+    let mut count = 0;
+    let mut k = 0;
+    while k < 4 {
+        match it.next() {
+            None => break,
+            Some(p) => {
+                // find it among the remaining frames
+                let mut found = false;
+                let mut j = 0;
+                while j < 3 {
+                    if j >= next_src && !found && pts[j].sample_offset == p.sample_offset {
+                        assert!(p.byte_offset == pts[j].byte_offset && p.frame_samples == pts[j].frame_samples);
+                        found = true;
+                        next_src = j + 1;
+                    }
+                    j += 1;
+                }
+                assert!(found);
+                if count == 0 {
+                    assert!(p.sample_offset == 0);
+                }
+                count += 1;
+            }
+        }
+        k += 1;
+    }
+    assert!(count >= 1 && count <= 3);
+    std::mem::forget(it);
+}
+
+// @harness prop=C09 tier=quick expect=pass timeout=600
+// @units encode::EncoderSeekPoint::placeholders encode::EncoderSeekPoint::range
+// @bound declared total 1..2^36-1 and block size 16..=65535 symbolic; the first 3 placeholder points
+// @oracle point k starts at k x block size, covers min(block size, what is left) samples, has no byte offset; there are ceil(total / block size) of them
+#[kani::proof]
+#[kani::unwind(6)]
+fn c09_placeholders_cover_declared_total() {
+    let total: u64 = kani::any();
+    kani::assume(total >= 1 && total < (1 << 36));
+    let block: u16 = kani::any();
+    kani::assume(block >= 16);
+    let mut it = EncoderSeekPoint::placeholders(total, block);
+    let mut k: u64 = 0;
+    while k < 3 {
+        let start = k * u64::from(block);
+        match it.next() {
+            Some(p) => {
+                assert!(start < total);
+                assert!(p.sample_offset == start && p.byte_offset.is_none());
+                let left = total - start;
+                let want = if left < u64::from(block) { left as u16 } else { block };
+                assert!(p.frame_samples == want);
+                assert!(p.range().end <= total && p.range().start == start);
+            }
+            None => assert!(start >= total),
+        }
+        k += 1;
+    }
+}
+
+/// stand-in for encode_frame: emits 1, 2 or 3 bytes (solver's choice) and
+/// counts the frame, or fails
+fn stub_encode_frame<W: std::io::Write>(
+    _options: &EncoderOptions,
+    _cache: &mut EncodingCaches,
+    mut writer: W,
+    _streaminfo: &mut Streaminfo,
+    frame_number: &mut FrameNumber,
+    _sample_rate: SampleRate<u32>,
+    _frame: ArrayVec<&[i32], MAX_CHANNELS>,
+) -> Result<(), Error> {
+    if kani::any() {
+        return Err(Error::ResidualOverflow);
+    }
+    let sel: u8 = kani::any();
+    match sel % 3 {
+        0 => writer.write_all(&[0]).map_err(Error::Io)?,
+        1 => writer.write_all(&[0, 0]).map_err(Error::Io)?,
+        _ => writer.write_all(&[0, 0, 0]).map_err(Error::Io)?,
+    }
+    frame_number.try_increment()
+}
+
+fn model_encoder(total: Option<u64>, written: u64, bytes: u64) -> Encoder<NullSeek> {
+    let mut blocks = BlockList::new(Streaminfo {
+        minimum_block_size: 16,
+        maximum_block_size: 16,
+        minimum_frame_size: None,
+        maximum_frame_size: None,
+        sample_rate: 44100,
+        channels: NonZero::new(1).unwrap(),
+        bits_per_sample: SignedBitCount::new::<16>(),
+        total_samples: total.and_then(NonZero::new),
+        md5: None,
+    });
+    let _ = &mut blocks;
+    Encoder {
+        writer: Counter { stream: NullSeek { pos: 100 + bytes }, count: bytes },
+        start: 7,
+        options: enc_opts(0, false),
+        caches: EncodingCaches::default(),
+        blocks,
+        sample_rate: SampleRate::Hz44100,
+        frame_number: FrameNumber(0),
+        samples_written: written,
+        seekpoints: Vec::new(),
+        md5: md5::Context::new(),
+        finalized: false,
+    }
+}
+
+// @harness prop=C09,C15 tier=quick expect=pass timeout=900 replay=driver
+// @units encode::Encoder::encode (seek point and sample bookkeeping, declared-length enforcement)
+// @stubs encode::encode_frame
+// @bound one encode() call of a 2-sample mono frame from an arbitrary encoder state (samples written so far < 2^36, bytes written so far < 2^40, declared total None or 1..2^36-1)
+// @oracle the seek point recorded for the frame names the sample count and the byte offset before the call and the frame's length; the sample counter advances by the frame length; exceeding a declared total is Err(ExcessiveTotalSamples) and nothing is handed to the frame encoder
+#[kani::proof]
+#[kani::unwind(6)]
+#[kani::stub(encode_frame, stub_encode_frame)]
+fn c09_encoder_encode_bookkeeping() {
+    let written: u64 = kani::any();
+    kani::assume(written < (1 << 36));
+    let bytes: u64 = kani::any();
+    kani::assume(bytes < (1 << 40));
+    let total: Option<u64> = if kani::any() {
+        let t: u64 = kani::any();
+        kani::assume(t >= 1 && t < (1 << 36) && written <= t);
+        Some(t)
+    } else {
+        None
+    };
+    let mut e = model_encoder(total, written, bytes);
+    let mut frame = Frame::empty(1, 16);
+    frame.fill_from_channels([[1i32, 2]]);
+    let r = e.encode(&frame);
+    assert!(e.seekpoints.len() == 1);
+    let p = &e.seekpoints[0];
+    assert!(p.sample_offset == written && p.byte_offset == Some(bytes) && p.frame_samples == 2);
+    assert!(e.samples_written == written + 2);
+    match total {
+        Some(t) if written + 2 > t => {
+            assert!(matches!(r, Err(Error::ExcessiveTotalSamples)));
+            assert!(e.writer.count == bytes);
+        }
+        _ => {
+            if r.is_ok() {
+                assert!(e.writer.count > bytes && e.writer.count <= bytes + 3);
+                assert!(e.frame_number.0 == 1);
+            }
+        }
+    }
+    kani::cover!(r.is_ok());
+    std::mem::forget(r);
+    std::mem::forget(e);
+    std::mem::forget(frame);
+}
+
+// @harness prop=C09,C15 tier=quick expect=pass timeout=900 replay=driver
+// @units encode::Encoder::finalize_inner (declared-length check, final sample count, MD5, header rewrite position)
+// @stubs metadata::write_blocks
+// @bound finalize from an arbitrary encoder state without seek table: samples written 0..2^37, declared total None or 1..2^36-1
+// @oracle declared total != written => Err(SampleCountMismatch); undeclared: 0 written => Err(NoSamples), >= 2^36 => Err(ExcessiveTotalSamples), else STREAMINFO carries exactly the written count; on success an MD5 is stored and the writer was repositioned to the remembered stream start; a second finalize is a no-op
+#[kani::proof]
+#[kani::unwind(6)]
+#[kani::stub(write_blocks, stub_write_blocks)]
+fn c09_encoder_finalize_counts() {
+    let written: u64 = kani::any();
+    kani::assume(written < (1 << 37));
+    let total: Option<u64> = if kani::any() {
+        let t: u64 = kani::any();
+        kani::assume(t >= 1 && t < (1 << 36));
+        Some(t)
+    } else {
+        None
+    };
+    let mut e = model_encoder(total, written, 5);
+    let r = e.finalize_inner();
+    match total {
+        Some(t) => {
+            if t != written {
+                assert!(matches!(r, Err(Error::SampleCountMismatch)));
+            } else {
+                assert!(r.is_ok());
+            }
+        }
+        None => {
+            if written == 0 {
+                assert!(matches!(r, Err(Error::NoSamples)));
+            } else if written >= (1 << 36) {
+                assert!(matches!(r, Err(Error::ExcessiveTotalSamples)));
+            } else {
+                assert!(r.is_ok());
+            }
+        }
+    }
+    if r.is_ok() {
+        assert!(e.blocks.streaminfo().total_samples.map(|t| t.get()) == Some(written));
+        assert!(e.blocks.streaminfo().md5.is_some());
+        assert!(e.writer.stream.pos == 7);
+    }
+    assert!(e.finalized);
+    std::mem::forget(r);
+    let again = e.finalize_inner();
+    assert!(again.is_ok());
+    std::mem::forget(again);
+    std::mem::forget(e);
+}
+
+// (finalize with a seek table - refilled in place or carved out of padding -
+// consumes the Box<dyn Iterator> returned by SeekTableInterval::filter through
+// try_extend/collect and sizes the table through the bit counter: neither
+// variant finished in 900 s at 2 seek points; outside the claim)
